@@ -83,6 +83,9 @@ def mh_prop_node(key, st, step):
     return gs.MHProposal({"sigma_transformed_value": cur + step * z}, log_correction=0.1 * step * z)
 
 
+PYNUM = "liesel:MH+RW(scalar parameter stored as a Python number)"
+
+
 def make_sequence(kind):
     """returns (kernels, model interface, example model state builder, free input values, kernel-state examples, rec)"""
     import liesel.goose as gs
@@ -102,6 +105,9 @@ def make_sequence(kind):
         elif kind == "liesel:RW+MH(position keys are value-node names)":
             ks = [gs.RWKernel(["beta_value"]), gs.MHKernel(["sigma_transformed_value"], mh_prop_node)]
             kst = [RWKernelState(0.4), RWKernelState(0.3)]
+        elif kind == PYNUM:
+            ks = [gs.MHKernel(["sigma_transformed"], mh_prop), gs.RWKernel(["beta"])]      # the Python-number leaf belongs to the FIRST kernel's block
+            kst = [RWKernelState(0.3), RWKernelState(0.4)]
         elif kind == "liesel:Gibbs+Gibbs(second reads the first's block)":
             ks = [gs.GibbsKernel(["sigma_transformed"], gibbs_fn), gs.GibbsKernel(["beta"], gibbs_beta)]
             kst = [{}, {}]
@@ -130,6 +136,12 @@ def make_sequence(kind):
         st0 = model.state
         vals0 = M.values_of(st0)
         free = {k: jnp.asarray(vals0[k]) for k in M.strong_names(model) if np.asarray(vals0[k]).dtype.kind == "f" and not M.is_concrete_name(k)}
+        if kind == PYNUM:
+            # kernels driven directly (no engine, no jit) on a state whose scalar parameter is a plain Python number, as `lsl.param(0.0, ...)`
+            # without float32 conversion stores it: that leaf is a constant of the encoding, everything else stays symbolic
+            vals0 = dict(vals0)
+            vals0["sigma_transformed_value"] = 0.0
+            del free["sigma_transformed_value"]
         ref_model = (int_init_model() if kind == "liesel:Gibbs(int-initialised parameter)+RW" else plain_node_model() if "plain value node" in kind else regression_with_report())   # built independently, not with the interface's copy helper
         strong_all = M.strong_names(model)
 
@@ -325,8 +337,8 @@ def obligations(kind, e_seq, e_orc, ks, param_keys, s_free, has_derived):
 
 def main():
     chk = Check("C09")
-    kinds = ["liesel:RW+Gibbs", "liesel:NUTS+MH", "dict:RW+MH", "liesel:Gibbs+RW+RW(ids not sorted)", "liesel:Gibbs(int-initialised parameter)+RW", "liesel:RW+MH(position keys are value-node names)", "liesel:Gibbs+Gibbs(second reads the first's block)", "liesel:RW+Gibbs(block is a plain value node)"] if chk.tier == "quick" else \
-        ["liesel:RW+Gibbs", "liesel:IWLS+RW", "liesel:NUTS+MH", "liesel:Gibbs+RW+RW(ids not sorted)", "dict:RW+MH", "dict:NUTS+RW", "liesel:Gibbs(int-initialised parameter)+RW", "liesel:RW+MH(position keys are value-node names)", "liesel:Gibbs+Gibbs(second reads the first's block)", "liesel:RW+Gibbs(block is a plain value node)"]
+    kinds = ["liesel:RW+Gibbs", "liesel:NUTS+MH", "dict:RW+MH", "liesel:Gibbs+RW+RW(ids not sorted)", "liesel:Gibbs(int-initialised parameter)+RW", "liesel:RW+MH(position keys are value-node names)", "liesel:Gibbs+Gibbs(second reads the first's block)", "liesel:RW+Gibbs(block is a plain value node)", PYNUM] if chk.tier == "quick" else \
+        ["liesel:RW+Gibbs", "liesel:IWLS+RW", "liesel:NUTS+MH", "liesel:Gibbs+RW+RW(ids not sorted)", "dict:RW+MH", "dict:NUTS+RW", "liesel:Gibbs(int-initialised parameter)+RW", "liesel:RW+MH(position keys are value-node names)", "liesel:Gibbs+Gibbs(second reads the first's block)", "liesel:RW+Gibbs(block is a plain value node)", PYNUM]
     obs = []
     for kind in kinds:
         res = chk.guarded(f"{kind}:trace", f"[{kind}] tracing the kernel sequence", scenario, chk, kind)
